@@ -95,6 +95,20 @@ class NativeBuilder:
         self.used[name] = arr.tolist()
         return arr
 
+    def quantity(self, name, unit):
+        import astropy.units as u
+        un = getattr(u, unit) if isinstance(unit, str) else unit
+        si = {'angle': u.rad}.get(str(un.physical_type), None)
+        v = self.real(name)
+        if si is not None:
+            return (v * si).to(un)
+        return v * un
+
+    def angle(self, name, unit):
+        from astropy.coordinates import Angle
+        import astropy.units as u
+        return Angle(self.real(name) * u.rad).to(getattr(u, unit))
+
     def call(self, fn, *args, **kw):
         return fn(*args, **kw)
 
@@ -186,6 +200,8 @@ def run_contract(cls, target, case_kw, model, clause, verbose=True):
     for k, v in model.items():
         if k.startswith('forall.'):
             pool[k[7:]] = py_val(v)
+    for name, kind in (cls.__dict__.get('forall') or {}).items():
+        pool.setdefault(name, {'int': 0, 'index': 0, 'real': 0.0, 'bool': False}[kind])
     pre = cls.__dict__.get('pre')
     if pre is not None:
         pre = getattr(pre, '__func__', pre)
@@ -204,6 +220,15 @@ def run_contract(cls, target, case_kw, model, clause, verbose=True):
         else:
             fn, owner = raw_attr(target)
             a = dict(args)
+            import inspect
+            try:
+                f0 = fn.fget if isinstance(fn, property) else getattr(fn, '__func__', fn)
+                f0 = f0.__init__ if inspect.isclass(f0) else f0
+                sig = inspect.signature(f0)
+                if '_args' not in a and not any(p.kind == p.VAR_KEYWORD for p in sig.parameters.values()):
+                    a = {k: v for k, v in a.items() if k in sig.parameters}
+            except (TypeError, ValueError):
+                pass
             if '_args' in a:
                 pos = list(a.pop('_args'))
                 result = resolve(target)(*pos, **a)
